@@ -1323,3 +1323,107 @@ func unlockBetween(a, b ssa.Instruction) ssa.Instruction {
 	}, nil)
 	return found
 }
+
+// ---- function units ---------------------------------------------------------
+//
+// A rule anchored on one function must survive the routine refactoring that
+// splits it into helpers. unitFn is one member of the unit: the root, or a
+// same-package function the unit calls statically, passing along the value the
+// rule is about (e.g. the connection); Param is that value inside the member.
+type unitFn struct {
+	Fn    *ssa.Function
+	Param *ssa.Parameter
+	From  ssa.CallInstruction // call site that brought the member in (nil for the root)
+}
+
+// paramUnit collects root and, up to depth levels, the same-package functions
+// called with root's parameter `param` (or a member's corresponding parameter)
+// as an argument.
+func paramUnit(root *ssa.Function, param *ssa.Parameter, depth int) []unitFn {
+	out := []unitFn{{root, param, nil}}
+	seen := map[*ssa.Function]bool{root: true}
+	frontier := out
+	for d := 0; d < depth && len(frontier) > 0; d++ {
+		var next []unitFn
+		for _, m := range frontier {
+			for _, g := range WithAnon(m.Fn) {
+				Instrs(g, func(in ssa.Instruction) {
+					ci, ok := in.(ssa.CallInstruction)
+					if !ok {
+						return
+					}
+					cal := ci.Common().StaticCallee()
+					if cal == nil || cal.Pkg == nil || root.Pkg == nil || cal.Pkg != root.Pkg || seen[cal] || len(cal.Blocks) == 0 {
+						return
+					}
+					for i, a := range ci.Common().Args {
+						if rootOfCapture(stripValue(a)) == ssa.Value(m.Param) && i < len(cal.Params) {
+							seen[cal] = true
+							u := unitFn{cal, cal.Params[i], ci}
+							next = append(next, u)
+							out = append(out, u)
+							return
+						}
+					}
+				})
+			}
+		}
+		frontier = next
+	}
+	return out
+}
+
+// rootOfCapture looks through a closure's free variable to the captured value
+// when that is directly a parameter of the enclosing function.
+func rootOfCapture(v ssa.Value) ssa.Value {
+	if fv, ok := v.(*ssa.FreeVar); ok {
+		fn := fv.Parent()
+		if fn != nil && fn.Parent() != nil {
+			for i, x := range fn.FreeVars {
+				if x == fv {
+					// find the MakeClosure in the parent
+					var bound ssa.Value
+					Instrs(fn.Parent(), func(in ssa.Instruction) {
+						if mc, ok := in.(*ssa.MakeClosure); ok && mc.Fn == fn && i < len(mc.Bindings) {
+							bound = mc.Bindings[i]
+						}
+					})
+					if bound != nil {
+						return stripValue(bound)
+					}
+				}
+			}
+		}
+	}
+	return v
+}
+
+// errorPropagated: the error result of call c (a unit member's call of a helper)
+// is not swallowed: either c's results are returned as they are, or no success
+// return (nil error) of the caller lies on the failed edge and that edge exists.
+func errorPropagated(c ssa.CallInstruction) bool {
+	f := c.Parent()
+	cv, _ := c.(ssa.Value)
+	if cv == nil {
+		return false
+	}
+	checked := false
+	for _, ret := range Returns(f) {
+		for _, res := range ret.Results {
+			if valueFromCall(res, c) && res.Type().String() == "error" {
+				if !CanReachBlock(c.Block(), ret.Block()) {
+					continue
+				}
+				// returned as is (possibly through the err != nil branch)
+				checked = true
+			}
+		}
+		if ErrFailed(ret.Block(), c) {
+			checked = true
+			if RetErrKind(ret) == "nil" {
+				return false
+			}
+		}
+	}
+	return checked
+}
